@@ -120,7 +120,7 @@ def stepNormal (code : List Node) (s : St) : List St :=
     | .enterFinally =>
       match s.fs with
       | [] => []
-      | fr :: rest => [⟨s.pc + 1, s.h, s.vs, { fr with fArmed := false } :: rest⟩]
+      | fr :: rest => [⟨s.pc + 1, s.h, s.vs, { fr with fArmed := false, cArmed := false } :: rest⟩]   -- vm.go:4823 (fix 379f30d)
     | .leaveFinally =>
       match s.fs with
       | [] => []
